@@ -53,6 +53,9 @@ def values_part(ck, tier):
             tail += z < -3
             ident = {**idn, "query": p["q"], "z_score": z}
             ck.case((str(idn), str(p["q"])))
+            if not SL.value(p["ei"]) > 1e-300:
+                ck.count("acquisition_reference", "query_points_skipped_EI_below_double_range", 1)
+                continue
             want = {"ei": SL.value(p["ei"]), "ucb": SL.value(p["ucb"]), "ucb3": SL.value(p["ucb3"]), "maxvar": G.fr(p["maxvar"])}
             wgrad = {"ei": np.array([SL.value(g) for g in p["gei"]]) / want["ei"],        # grad ln EI = grad EI / EI
                      "ucb": np.array([SL.value(g) for g in p["gucb"]]), "ucb3": np.array([SL.value(g) for g in p["gucb3"]]), "maxvar": np.array([SL.value(g) for g in p["gvar"]])}
@@ -145,13 +148,26 @@ def optimiser_part(ck, tier):
                         ny = np.array(float(yv))
                         ne = np.array(0.15)
                         kx, ky, ke = nx.copy(), ny.copy(), ne.copy()
+                        errs_before = np.array(opt.y_err, dtype=float).copy()
                         opt.add_evaluation(nx, ny, new_y_err=ne)
                         evs.append({"ev": "Add", "y": int(yv), "n": int(len(opt.y)), "gp_n": int(opt.gp.y.size),
                                     "last_y": int(round(float(opt.y[-1]))),
                                     "last_x_ok": bool(len(opt.x) == len(opt.y) and np.allclose(np.ravel(opt.x[-1]), kx) and
                                                       np.allclose(np.ravel(opt.gp.x[-1]), kx) and opt.gp.x.shape[0] == len(opt.y)),
+                                    "errs_aligned": bool(np.array_equal(np.asarray(opt.y_err, dtype=float), np.append(errs_before, 0.15))
+                                                         and np.allclose(np.sqrt(np.diag(np.atleast_2d(opt.gp.sig))) if np.ndim(opt.gp.sig) == 2 else opt.gp.sig,
+                                                                         np.append(errs_before, 0.15))),
                                     "mu_max": int(round(float(opt.acquisition.mu_max))),
                                     "caller_unchanged": unchanged(((nx, kx), (ny, ky), (ne, ke)))})
+                # optimisers built with the DEFAULT acquisition are independent objects: construct and use another one, then look again
+                if hi % 4 == 0:
+                    mine = GpOptimiser(x=x0, y=y0, y_err=e0, bounds=bounds)
+                    evs.append({"ev": "Init", "ys": [int(v) for v in y0], "n": int(len(mine.y)), "gp_n": int(mine.gp.y.size),
+                                "mu_max": int(round(float(mine.acquisition.mu_max))), "caller_unchanged": unchanged()})
+                    other = GpOptimiser(x=x0 + 0.125, y=y0 + 7.0, y_err=e0, bounds=bounds)
+                    other.add_evaluation(np.array([0.25] * dim), np.array(30.0), new_y_err=np.array(0.15))
+                    evs.append({"ev": "Other", "n": int(len(mine.y)), "gp_n": int(mine.gp.y.size), "mu_max": int(round(float(mine.acquisition.mu_max))),
+                                "own_model": bool(mine.acquisition.gp is mine.gp)})
         except Exception as ex:
             ck.violation("GpOptimiser call raised", {**ident, "error": repr(ex)[:300]}, site="GpOptimiser")
             continue
@@ -176,6 +192,8 @@ def optimiser_part(ck, tier):
             site = "GpOptimiser.propose_evaluation"
         elif not e.get("caller_unchanged", True):
             site = "GpOptimiser:ownership"
+        elif e["ev"] == "Other":
+            site = "GpOptimiser:independence"
         else:
             site = "GpOptimiser.add_evaluation"
         ck.violation("GpOptimiser: proposals inside the bounds; an added evaluation joins the data of the next model and updates the incumbent; "
